@@ -43,6 +43,12 @@ func (p *parser) parseSelector() (s Selector, err error) {
 	}
 
 	for {
+		// Only a label name may follow '{' or ',' inside of a selector,
+		// so a keyword (by, on, json, etc.) is a label name here.
+		if t := p.peek(); t.Type != lexer.String && IsValidLabel(t.Text, false) == nil {
+			p.tokens[p.pos].Type = lexer.Ident
+		}
+
 		m, err := p.parseLabelMatcher()
 		if err != nil {
 			return s, err
